@@ -211,33 +211,71 @@ Proof.
   - rewrite nth_repeat_any by auto. apply nth_repeat0.
 Qed.
 
+Lemma alloc_shape (r : Reg R) n o : rorder (alloc F r n o) = o /\ rn (alloc F r n o) = n /\
+  rk (alloc F r n o) = rk r /\ rval (alloc F r n o) = rval r.
+Proof.
+  unfold alloc. destruct (Nat.eqb_spec (rn r) n) as [E1|E1]; destruct (Nat.eqb_spec (rorder r) o) as [E2|E2];
+    cbn [andb rorder rn rk rval]; auto.
+Qed.
+
+(* SetVariable on ANY well-formed receiver (HEAD 8241a1e clears recycled storage): fresh, of another shape, or already
+   holding n variables at this order with the derivatives of an earlier computation *)
+Theorem rep_setvar_any n o c k (s : StR) :
+  (1 <= o)%nat -> (k < n)%nat -> wf (s c) ->
+  exists s', set_variable F idR c k n o s = Ok s' /\ frame c s s' /\ rk (s' c) = rk (s c) /\
+             rep n o (s' c) (jvar (rval (s c)) k).
+Proof.
+  intros H1 Hk Hw. unfold set_variable.
+  destruct (alloc_shape (s c) n o) as [Ao [An [Ak Av]]].
+  destruct (reset_derivs_facts S (alloc F (s c) n o) (wf_alloc S _ n o Hw)) as [W [K [V [O [N [G H]]]]]].
+  set (r2 := reset_derivs F (alloc F (s c) n o)) in *.
+  assert (Ro : rorder r2 = o) by congruence. assert (Rn : rn r2 = n) by congruence.
+  assert (Ld : length (rderiv r2) = n) by (destruct W as [Wd _]; rewrite Wd by lia; exact Rn).
+  destruct (Nat.leb_spec 1 o); [|lia]. rewrite Ld. destruct (Nat.ltb_spec k n); [|lia].
+  eexists. split; [reflexivity|]. split; [intros q Hq; apply upd_other; auto|]. rewrite upd_same.
+  unfold set_d. cbn [rk]. rewrite rndk_id. split; [congruence|].
+  assert (Hgh : forall i j, ghR (mkReg (rk r2) (rval r2) (rorder r2) (rn r2) (upd_nth k (one F) (rderiv r2)) (rhess r2)) i j = 0).
+  { intros i j. rewrite <- (H i j). reflexivity. }
+  split.
+  { destruct W as [Wd Wh]. split; cbn [rorder rn rderiv rhess]; intros Ho; [rewrite length_upd_nth; auto|auto]. }
+  split; [intros i j; rewrite !Hgh; reflexivity|]. split; [cbn [rval jvar jv]; congruence|].
+  split; [left; split; assumption|]. split.
+  - intros _ i Hi. unfold gd. cbn [rorder rderiv jvar jg]. rewrite Ro. destruct (Nat.leb_spec 1 o); [|lia].
+    destruct (Nat.eqb_spec i k) as [E|E].
+    + subst i. apply nth_upd_nth_same. rewrite Ld. auto.
+    + rewrite nth_upd_nth_other by auto. specialize (G i). unfold gd in G. rewrite Ro in G.
+      destruct (Nat.leb_spec 1 o); [exact G|lia].
+  - intros _ i j _ _. rewrite Hgh. reflexivity.
+Qed.
+
+(* the same when the receiver is reallocated (no well-formedness needed: Alloc hands out fresh zeroed storage) *)
 Theorem rep_setvar n o c k (s : StR) :
   (1 <= o)%nat -> (k < n)%nat -> (rn (s c) <> n \/ rorder (s c) <> o) ->
   exists s', set_variable F idR c k n o s = Ok s' /\ frame c s s' /\ rk (s' c) = rk (s c) /\
              rep n o (s' c) (jvar (rval (s c)) k).
 Proof.
-  intros H1 Hk Hne. unfold set_variable.
+  intros H1 Hk Hne.
   assert (Ea : alloc F (s c) n o =
                mkReg (rk (s c)) (rval (s c)) o n (repeat 0 n) (if (2 <=? o)%nat then repeat (repeat 0 n) n else [])).
   { unfold alloc. destruct (Nat.eqb_spec (rn (s c)) n) as [E1|E1]; destruct (Nat.eqb_spec (rorder (s c)) o) as [E2|E2];
       cbn [andb]; try (exfalso; tauto); destruct (Nat.leb_spec 1 o); try lia; reflexivity. }
-  rewrite Ea. destruct (Nat.leb_spec 1 o); [|lia]. cbn [rderiv]. rewrite repeat_length.
-  destruct (Nat.ltb_spec k n); [|lia].
-  eexists. split; [reflexivity|]. split; [intros q Hq; apply upd_other; auto|]. rewrite upd_same.
-  unfold set_d. cbn [rk rval rorder rn rderiv rhess]. rewrite rndk_id. split; [reflexivity|].
-  assert (Hgh : forall i j, ghR (mkReg (rk (s c)) (rval (s c)) o n (upd_nth k (one F) (repeat 0 n))
-                                       (if (2 <=? o)%nat then repeat (repeat 0 n) n else [])) i j = 0).
-  { intros i j. unfold gh. cbn [rorder rhess]. destruct (Nat.leb_spec 2 o); [apply hget_repeat0|reflexivity]. }
-  split.
-  { split; cbn [rorder rn rderiv rhess]; intros Ho.
-    - rewrite length_upd_nth. apply repeat_length.
-    - destruct (Nat.leb_spec 2 o); [|lia]. apply (square_repeat S). }
-  split; [intros i j; rewrite !Hgh; reflexivity|]. split; [reflexivity|]. split; [left; split; reflexivity|]. split.
-  - intros _ i Hi. unfold gd. cbn [rorder rderiv jvar jg]. destruct (Nat.leb_spec 1 o); [|lia].
-    destruct (Nat.eqb_spec i k) as [E|E].
-    + subst i. apply nth_upd_nth_same. rewrite repeat_length. auto.
-    + rewrite nth_upd_nth_other by auto. apply nth_repeat0.
-  - intros _ i j _ _. rewrite Hgh. reflexivity.
+  (* run SetVariable on the state whose receiver is already the freshly allocated register: same result *)
+  set (s0 := upd s c (alloc F (s c) n o)).
+  assert (W0 : wf (s0 c)).
+  { unfold s0. rewrite upd_same, Ea. split; cbn [rorder rn rderiv rhess]; intros Ho; [apply repeat_length|].
+    destruct (Nat.leb_spec 2 o); [|lia]. apply (square_repeat S). }
+  destruct (rep_setvar_any n o c k s0 H1 Hk W0) as [s' [E [Fr [K R']]]].
+  assert (Eal : alloc F (s0 c) n o = alloc F (s c) n o).
+  { unfold s0. rewrite upd_same. destruct (alloc_shape (s c) n o) as [Ao [An _]].
+    unfold alloc at 1. rewrite An, Ao, !Nat.eqb_refl. reflexivity. }
+  exists s'. split.
+  { unfold set_variable in *. rewrite Eal in E. rewrite <- E.
+    destruct (1 <=? o)%nat; [destruct (_ <? _)%nat; [|reflexivity]|]; f_equal; unfold s0;
+      apply FunctionalExtensionality.functional_extensionality; intro q; unfold upd; destruct (Nat.eqb q c); reflexivity. }
+  split; [intros q Hq; rewrite Fr by exact Hq; unfold s0; apply upd_other; auto|].
+  destruct (alloc_shape (s c) n o) as [_ [_ [Ak Av]]].
+  split; [rewrite K; unfold s0; rewrite upd_same; exact Ak|].
+  replace (rval (s c)) with (rval (s0 c)) by (unfold s0; rewrite upd_same; exact Av). exact R'.
 Qed.
 
 (* ------------------------------------------------------------------ Reset / SetFloat64 *)
